@@ -14,12 +14,14 @@
    decoder's lexer rejects, any JSON tree - any members, kinds, sizes, repeated
    names, byte strings that are not UTF-8); [st : session_state] every state the
    dispatch looks at (no session / client / internal client, federated, any set of
-   pending dialout ids, media server or not, in a room or not); the three library
+   pending dialout ids, media server or not, in a room or not, any set of sessions /
+   users / room members that are reachable but have no connection at the moment, so
+   that what is sent to them is stored: storePendingMessage -> IsChatRefresh); the three library
    oracles (url.Parse, url.ParseRequestURI, the SDP parser) are universally
    quantified functions. *)
 From Coq Require Import List ZArith NArith String Bool Ascii.
 From Verif Require Import gen.Params gen.Schema lib.Json lib.Decode model.ClientMsg corr.Run_C10
-  proofs.Decode_proofs proofs.ClientMsg_proofs proofs.ClientMsg_spec.
+  proofs.Decode_proofs proofs.ClientMsg_proofs proofs.ClientMsg_spec proofs.ClientMsg_media.
 Import ListNotations.
 Open Scope string_scope.
 
@@ -108,6 +110,25 @@ Theorem C10_documented_invalid_rejected : forall url_ok requri_ok j,
   spec_invalid_doc j = true -> exists r, rejected url_ok requri_ok j = Some r.
 Proof. exact spec_invalid_rejected. Qed.
 
+(* ... and for the payload the server validates itself when it has a media server (message
+   to a session, or - from a sender that is in a room - to the room / the call): data of
+   the documented shape with an unknown stream type, or an offer / answer without a string
+   "sdp" that parses ([media_invalid_doc], corr/Run_C10.v), gets exactly one error and reaches
+   no handler - in particular it is not forwarded to the room. *)
+Theorem C10_media_invalid_rejected : forall url_ok requri_ok sdp_ok fx st j,
+  media_invalid_doc sdp_ok (ss_inroom st) j = true ->
+  ss_mcu st = true -> ss_kind st <> SNone -> ss_federated st = false ->
+  exists r, effect_of (classify url_ok requri_ok sdp_ok fx st (IDoc j)) =
+              {| e_replies := [r]; e_calls := []; e_exit := false; e_closed := false |}.
+Proof. exact media_invalid_rejected. Qed.
+
+(* (1) again, for the part of the delivery that looks into the payload of a valid message:
+   storing a message for a session without connection (ServerMessage.IsChatRefresh) ends with
+   a verdict for every payload - no nil dereference.  (C10_no_panic covers the path from the
+   frame to here; this is the statement about the function itself.) *)
+Theorem C10_store_total : forall data, exists r, is_chat_refresh data = Some r.
+Proof. exact is_chat_refresh_some. Qed.
+
 (* (3) Before hello only a valid hello is dispatched; everything else is answered
    with one error (hello_expected or the validation error) or closes the
    connection (frame over the limit). *)
@@ -149,6 +170,18 @@ Example C10_nonvacuous_spec :
   forallb spec_invalid_doc ex_spec_invalid = true /\ spec_invalid_doc ex_message = false /\ spec_invalid_doc ex_hello = false.
 Proof. vm_compute. auto. Qed.
 
+(* five messages with invalid media data are media-invalid and refused with the specific error;
+   a chat message without chat object to a session without connection is stored (no
+   refresh), a chat refresh to a room with such a member is stored as refresh *)
+Example C10_nonvacuous_media :
+  forallb (media_invalid_doc any_ok true) ex_media_invalid = true /\
+  map (fun j => classify any_ok any_ok any_ok repaired st_room (IDoc j)) ex_media_invalid =
+    [VError EInvalidSdp "m"; VError ENoSdp "m"; VError ENoSdp "m"; VError EInvalidFormat "m"; VError EInvalidSdp "m"] /\
+  media_invalid_doc any_ok true ex_message = false /\
+  (exists c, classify any_ok any_ok any_ok repaired st_room (IDoc ex_chat) = VDispatch [c; CStore false]) /\
+  (exists c, classify any_ok any_ok any_ok repaired st_room (IDoc ex_chat_refresh) = VDispatch [c; CStore true]).
+Proof. exact media_examples. Qed.
+
 Print Assumptions C10_schema.
 Print Assumptions C10_schema_params.
 Print Assumptions C10_size_limit.
@@ -164,3 +197,5 @@ Print Assumptions C10_documented_invalid_rejected.
 Print Assumptions C10_prehello_only_hello.
 Print Assumptions C10_prehello_hello_type.
 Print Assumptions C10_dispatch_complete.
+Print Assumptions C10_media_invalid_rejected.
+Print Assumptions C10_store_total.
